@@ -303,12 +303,12 @@ Qed.
 Lemma karatsuba_spec fuel thr : forall z x y,
   length x = length y -> words_ok x = true -> words_ok y = true -> (6 * length y <= length z)%nat ->
   exists R S, karatsuba fuel thr z x y = R ++ S /\ length R = (2 * length y)%nat /\
-              length S = (length z - 2 * length y)%nat /\ words_ok R = true /\ val R = val x * val y.
+              (length S + 2 * length y = length z)%nat /\ words_ok R = true /\ val R = val x * val y.
 Proof.
   assert (Base : forall z x y, length x = length y -> words_ok x = true -> words_ok y = true ->
             (6 * length y <= length z)%nat ->
             exists R S, basicMul z x y = R ++ S /\ length R = (2 * length y)%nat /\
-              length S = (length z - 2 * length y)%nat /\ words_ok R = true /\ val R = val x * val y).
+              (length S + 2 * length y = length z)%nat /\ words_ok R = true /\ val R = val x * val y).
   { intros z x y Hl Hx Hy Hz. destruct (basicMul_spec z x y Hx Hy) as (R & E & L & O & V).
     exists R, (skipn (length x + length y) z). repeat split; try assumption; [lia | len]. }
   induction fuel as [|f IH]; intros z x y Hl Hx Hy Hz; cbn [karatsuba]; [now apply Base|].
@@ -317,6 +317,7 @@ Proof.
   apply orb_false_iff in Ecase as [Ecase Hn2]. apply orb_false_iff in Ecase as [Hodd _].
   apply Nat.ltb_ge in Hn2. apply even_half in Hodd.
   set (n2 := (n / 2)%nat) in *.
+  assert (Hny : length y = n) by reflexivity. clearbody n2. clearbody n.
   set (x0 := firstn n2 x). set (x1 := skipn n2 x). set (y0 := firstn n2 y). set (y1 := skipn n2 y).
   assert (Lx0 : length x0 = n2) by (unfold x0; len).
   assert (Lx1 : length x1 = n2) by (unfold x1; len).
@@ -347,7 +348,7 @@ Proof.
     rewrite (skipn_app_at R2 _ (n + n2) n2) by lia. now rewrite <- !app_assoc. }
   rewrite E3. clear E3.
   set (S4 := skipn n2 (skipn n2 S2)).
-  assert (LS4 : length S4 = (length z - 3 * n)%nat) by (unfold S4; len).
+  assert (LS4 : (length S4 + 3 * n = length z)%nat) by (unfold S4; len).
   assert (E4 : splice (R0 ++ R2 ++ xd ++ skipn n2 S2) (2 * n + n2) yd = R0 ++ R2 ++ xd ++ yd ++ S4).
   { unfold splice.
     rewrite (firstn_app_at R0 _ (2 * n + n2) (n + n2)) by lia.
@@ -374,27 +375,254 @@ Proof.
   rewrite Lyd, Ly0 in LP, LS5. rewrite E5.
   replace ((R0 ++ R2 ++ xd ++ yd) ++ P ++ S5) with (R0 ++ R2 ++ (xd ++ yd) ++ P ++ S5)
     by (now rewrite <- !app_assoc).
-  replace n with (2 * n2)%nat at 1 by lia.
-  destruct (karatsubaCombine_spec n2 R0 R2 (xd ++ yd) P S5 (Bool.eqb sx sy)) as (R & S & E & LR & LS & OR & VR);
-    try assumption; try lia; try len.
-  - (* the exact product fits *)
-    rewrite VR0, VR2, VP.
-    pose proof (val_bounds' x Hx) as Bx. pose proof (val_bounds' y Hy) as By'. rewrite Hl in Bx. fold n in Bx, By'.
-    assert (Hnn : Bp (2 * n2) = Bp n2 * Bp n2) by (rewrite <- Bp_add; f_equal; f_equal; lia).
-    assert (H2n : Bp (2 * (2 * n2)) = Bp n * Bp n) by (rewrite <- Bp_add; f_equal; f_equal; lia).
-    assert (Hn' : Bp n = Bp n2 * Bp n2) by (rewrite <- Bp_add; f_equal; f_equal; lia).
-    rewrite Hnn, H2n.
-    assert (Et : val x0 * val y0 + Bp n2 * Bp n2 * (val x1 * val y1) +
-                 Bp n2 * (val x0 * val y0 + val x1 * val y1 + (if Bool.eqb sx sy then 1 else -1) * (val xd * val yd))
-                 = val x * val y).
-    { rewrite Vx, Vy.
-      destruct Vxd as [(-> & Vxd)|(-> & Vxd & _)]; destruct Vyd as [(-> & Vyd)|(-> & Vyd & _)];
-        cbn [Bool.eqb]; rewrite Vxd, Vyd; ring. }
-    rewrite Et. pose proof (val_nonneg x Hx). pose proof (val_nonneg y Hy). nia.
-  - exists R, S. replace (2 * n2)%nat with n in * by lia. rewrite E. repeat split; try assumption; try lia.
-    rewrite VR, VR0, VR2, VP.
-    assert (Hn' : Bp n = Bp n2 * Bp n2) by (rewrite <- Bp_add; f_equal; f_equal; lia).
-    rewrite Vx, Vy, Hn'.
+  assert (Hn' : Bp n = Bp n2 * Bp n2).
+  { rewrite <- Bp_add. f_equal. f_equal. rewrite Hodd at 1. lia. }
+  assert (H2n : Bp (2 * n) = Bp n * Bp n).
+  { rewrite <- Bp_add. f_equal. f_equal. lia. }
+  assert (Et : val R0 + Bp n * val R2 +
+               Bp n2 * (val R0 + val R2 + (if Bool.eqb sx sy then 1 else -1) * val P)
+               = val x * val y).
+  { rewrite VR0, VR2, VP, Vx, Vy, Hn'.
     destruct Vxd as [(-> & Vxd)|(-> & Vxd & _)]; destruct Vyd as [(-> & Vyd)|(-> & Vyd & _)];
-      cbn [Bool.eqb]; rewrite Vxd, Vyd; ring.
+      cbn [Bool.eqb]; rewrite Vxd, Vyd; ring. }
+  assert (LM : length (xd ++ yd) = n) by (rewrite app_length, Lxd, Lyd, Lx1, Ly0; lia).
+  assert (LS5' : (2 * n <= length S5)%nat) by lia.
+  assert (Hfit : 0 <= val x * val y < Bp (2 * n)).
+  { pose proof (val_bounds' x Hx) as Bx. pose proof (val_bounds' y Hy) as By'. rewrite Hl in Bx. rewrite Hny in By'.
+    rewrite H2n. split; [apply Z.mul_nonneg_nonneg; lia | apply Z.mul_lt_mono_nonneg; lia]. }
+  clear Hl Hny. subst n. clear IH Base.
+  destruct (karatsubaCombine_spec n2 R0 R2 (xd ++ yd) P S5 (Bool.eqb sx sy) LR0 LR2 LM LP LS5' OR0 OR2 OP)
+    as (R & S & E & LR & LS & OR & VR).
+  { cbv zeta. rewrite Et. exact Hfit. }
+  cbv zeta in VR. rewrite Et in VR.
+  exists R, S. split; [exact E|]. split; [exact LR|]. split; [|split; [exact OR | exact VR]].
+  lia.
 Qed.
+
+(* ---- dec.mul ------------------------------------------------------------- *)
+
+Lemma mul_lt_bounds a b A C : 0 <= a < A -> 0 <= b < C -> 0 <= a * b < A * C.
+Proof. intros. split; [apply Z.mul_nonneg_nonneg; lia | apply Z.mul_lt_mono_nonneg; lia]. Qed.
+
+(* partial sums of the block products stay below the full product *)
+Lemma acc_bound1 A b y0 y1 y X M pi pk :
+  0 <= A -> 0 <= b -> 0 <= y0 -> 0 <= y1 -> 0 < pi -> 0 < pk ->
+  y = y0 + pk * y1 -> A + pi * b <= X -> X * y < M -> A * y + pi * (b * y0) < M.
+Proof.
+  intros HA Hb H0 H1 Hpi Hpk -> HX HM.
+  assert (0 <= pi * b) by nia. assert (0 <= pk * y1) by nia.
+  assert (A * (y0 + pk * y1) + pi * (b * y0) <= (A + pi * b) * (y0 + pk * y1)) by nia.
+  assert ((A + pi * b) * (y0 + pk * y1) <= X * (y0 + pk * y1)) by (apply Z.mul_le_mono_nonneg_r; lia).
+  lia.
+Qed.
+Lemma acc_bound2 A b y0 y1 y X M pi pk :
+  0 <= A -> 0 <= b -> 0 <= y0 -> 0 <= y1 -> 0 < pi -> 0 < pk ->
+  y = y0 + pk * y1 -> A + pi * b <= X -> X * y < M ->
+  A * y + pi * (b * y0) + pi * pk * (b * y1) < M.
+Proof.
+  intros HA Hb H0 H1 Hpi Hpk -> HX HM.
+  assert (0 <= pi * b) by nia. assert (0 <= pk * y1) by nia.
+  assert (A * (y0 + pk * y1) + pi * (b * y0) + pi * pk * (b * y1) = (A + pi * b) * (y0 + pk * y1)) by ring.
+  assert ((A + pi * b) * (y0 + pk * y1) <= X * (y0 + pk * y1)) by (apply Z.mul_le_mono_nonneg_r; lia).
+  lia.
+Qed.
+
+Lemma length_of_Z_le v L : 0 <= v < Bp L -> (length (of_Z v) <= L)%nat.
+Proof.
+  intros Hv. destruct (of_Z v) as [|w l] eqn:E; [cbn; lia|].
+  pose proof (norm_nonempty_bounds (of_Z v) (words_ok_of_Z v) (of_Z_norm v)) as Hb.
+  rewrite E in Hb. specialize (Hb ltac:(congruence)). rewrite <- E, val_of_Z in Hb by lia. rewrite E in Hb.
+  destruct (Nat.le_gt_cases (length (w :: l)) L) as [|Hgt]; [assumption|].
+  pose proof (Bp_le L (length (w :: l) - 1) ltac:(lia)). lia.
+Qed.
+
+Lemma val_firstn_le j x : words_ok x = true -> 0 <= val (firstn j x) <= val x.
+Proof.
+  intros Hx. pose proof (val_firstn_skipn j x) as E.
+  pose proof (val_nonneg _ (words_ok_firstn j x Hx)). pose proof (val_nonneg _ (words_ok_skipn j x Hx)).
+  pose proof (Bp_pos (length (firstn j x))). nia.
+Qed.
+
+Lemma words_ok_mk0 junk n z : words_ok (firstn 0 (mk junk n) ++ z) = words_ok z.
+Proof. reflexivity. Qed.
+
+Lemma mul_blocks_spec mulr F k x y0 y1 y (m n : nat) :
+  (forall a b, words_ok a = true -> words_ok b = true -> (length a + length b < F)%nat ->
+               mulr a b = of_Z (val a * val b)) ->
+  length x = m -> (1 <= k <= n)%nat -> (n <= m)%nat -> words_ok x = true ->
+  words_ok y0 = true -> words_ok y1 = true -> (length y0 <= k)%nat -> (length y1 + k = n)%nat ->
+  val y = val y0 + Bp k * val y1 -> 0 <= val y0 < Bp k -> 0 <= val y < Bp n ->
+  (2 * k < F)%nat -> (n < F)%nat ->
+  forall fuel z i, (m <= i + fuel)%nat -> length z = (m + n)%nat -> words_ok z = true ->
+    val z = val (firstn i x) * val y ->
+    let r := mul_blocks mulr k y0 y1 fuel z (skipn i x) i in
+    length r = (m + n)%nat /\ words_ok r = true /\ val r = val x * val y.
+Proof.
+  intros Hmul Lx Hk Hnm Ox Oy0 Oy1 Ly0 Ly1 Vy By0 By HF1 HF2.
+  assert (Done : forall z i, (m <= i)%nat -> length z = (m + n)%nat -> words_ok z = true ->
+            val z = val (firstn i x) * val y ->
+            length z = (m + n)%nat /\ words_ok z = true /\ val z = val x * val y).
+  { intros z i Hi Lz Oz Vz. rewrite firstn_all2 in Vz by lia. now repeat split. }
+  induction fuel as [|f IH]; intros z i Hf Lz Oz Vz; cbn [mul_blocks].
+  - cbv zeta. apply (Done z i); (assumption || lia).
+  - cbv zeta. destruct (skipn i x) as [|w xs'] eqn:Exs.
+    + apply (Done z i); try assumption. apply (f_equal (@length Z)) in Exs. rewrite skipn_length in Exs. cbn in Exs. lia.
+    + assert (Hi : (i < m)%nat).
+      { apply (f_equal (@length Z)) in Exs. rewrite skipn_length in Exs. cbn in Exs. lia. }
+      rewrite <- Exs. clear Exs w xs'.
+      set (xs := skipn i x). set (bi := firstn k xs). set (xi := norm bi).
+      assert (Oxs : words_ok xs = true) by (now apply words_ok_skipn).
+      assert (Obi : words_ok bi = true) by (now apply words_ok_firstn).
+      assert (Oxi : words_ok xi = true) by (now apply words_ok_norm).
+      assert (Vxi : val xi = val bi) by apply val_norm.
+      assert (Lbi : (length bi <= k /\ i + length bi <= m)%nat) by (unfold bi, xs; len).
+      assert (Lxi : (length xi <= length bi)%nat).
+      { pose proof (zlen_norm_le bi). unfold zlen in *. unfold xi. lia. }
+      pose proof (val_bounds' bi Obi) as Bbi.
+      (* firstn (i+k) x = firstn i x ++ bi *)
+      assert (Vnext : val (firstn (i + k) x) = val (firstn i x) + Bp i * val bi).
+      { rewrite (val_split i (firstn (i + k) x)) by len.
+        rewrite firstn_firstn' by lia. unfold bi, xs. now rewrite firstn_skipn_comm'. }
+      pose proof (val_firstn_le (i + k) x Ox) as Hle.
+      pose proof (val_firstn_le i x Ox) as Hle0.
+      pose proof (val_bounds' x Ox) as Bx. rewrite Lx in Bx.
+      pose proof (val_nonneg y0 Oy0). pose proof (val_nonneg y1 Oy1).
+      pose proof (Bp_pos i). pose proof (Bp_pos k). pose proof (Bp_pos (length bi)).
+      assert (Hxy : val x * val y < Bp (m + n)) by (rewrite Bp_add; apply mul_lt_bounds; lia).
+      (* t = xi * y0 at i *)
+      rewrite (Hmul xi y0 Oxi Oy0) by lia.
+      set (t1 := of_Z (val xi * val y0)).
+      assert (Vt1 : val t1 = val bi * val y0).
+      { unfold t1. rewrite val_of_Z by (rewrite Vxi; apply Z.mul_nonneg_nonneg; lia). now rewrite Vxi. }
+      assert (Lt1 : (length t1 <= length bi + k)%nat).
+      { unfold t1. apply length_of_Z_le. rewrite Vxi, Bp_add. apply mul_lt_bounds; lia. }
+      assert (Ot1 : words_ok t1 = true) by apply words_ok_of_Z.
+      destruct (decAddAt_spec z t1 i Oz Ot1 ltac:(lia)) as (Lz1 & Oz1 & _).
+      assert (Vz1 : val (decAddAt z t1 i) = val z + Bp i * val t1).
+      { apply decAddAt_exact; try assumption; try lia. rewrite Lz, Vz, Vt1.
+        apply (acc_bound1 _ _ _ (val y1) _ (val x) _ _ (Bp k)); try assumption; lia. }
+      set (z1 := decAddAt z t1 i) in *.
+      (* t = xi * y1 at i + k *)
+      rewrite (Hmul xi y1 Oxi Oy1) by lia.
+      set (t2 := of_Z (val xi * val y1)).
+      pose proof (val_bounds' y1 Oy1) as By1.
+      assert (Vt2 : val t2 = val bi * val y1).
+      { unfold t2. rewrite val_of_Z by (rewrite Vxi; apply Z.mul_nonneg_nonneg; lia). now rewrite Vxi. }
+      assert (Lt2 : (length t2 <= length bi + length y1)%nat).
+      { unfold t2. apply length_of_Z_le. rewrite Vxi, Bp_add. apply mul_lt_bounds; lia. }
+      assert (Ot2 : words_ok t2 = true) by apply words_ok_of_Z.
+      destruct (decAddAt_spec z1 t2 (i + k) Oz1 Ot2 ltac:(lia)) as (Lz2 & Oz2 & _).
+      assert (Vz2 : val (decAddAt z1 t2 (i + k)) = val z1 + Bp (i + k) * val t2).
+      { apply decAddAt_exact; try assumption; try lia. rewrite Lz1, Lz, Vz1, Vz, Vt1, Vt2, Bp_add.
+        apply (acc_bound2 _ _ _ _ _ (val x)); try assumption; lia. }
+      set (z2 := decAddAt z1 t2 (i + k)) in *.
+      unfold xs. rewrite skipn_skipn'.
+      apply IH; try lia.
+      rewrite Vz2, Vz1, Vz, Vt1, Vt2, Vnext, Vy, Bp_add. ring.
+Qed.
+
+Theorem mul_f_spec thr junk : 1 <= thr -> forall fuel x y,
+  (length x + length y < fuel)%nat -> words_ok x = true -> words_ok y = true ->
+  mul_f fuel thr junk x y = of_Z (val x * val y).
+Proof.
+  intros Hthr. induction fuel as [|f IH]; intros x y Hf Hx Hy; [lia|].
+  (* after the operand swap: m >= n *)
+  assert (Core : forall x y, (length y <= length x)%nat -> (length x + length y <= f)%nat ->
+            words_ok x = true -> words_ok y = true ->
+            (let m := length x in let n := length y in
+             if (n =? 0)%nat then []
+             else if (n =? 1)%nat then nat_mulAddWW x (hd 0 y) 0
+             else if Z.of_nat n <? thr then norm (basicMul (mk junk (m + n)) x y)
+             else
+               let k := karatsubaLen n thr in
+               let x0 := firstn k x in
+               let y0 := firstn k y in
+               let z := karatsuba k thr (mk junk (Nat.max (6 * k) (m + n))) x0 y0 in
+               let z := firstn (2 * k) z ++ repeat 0 (m + n - 2 * k) in
+               if (k <? n)%nat || negb (m =? n)%nat then
+                 let x0n := norm x0 in
+                 let y1 := skipn k y in
+                 let z := decAddAt z (mul_f f thr junk x0n y1) k in
+                 let y0n := norm y0 in
+                 norm (mul_blocks (mul_f f thr junk) k y0n y1 m z (skipn k x) k)
+               else norm z) = of_Z (val x * val y)).
+  { clear x y Hf Hx Hy. intros x y Hmn Hf Hx Hy. cbv zeta.
+    set (m := length x) in *. set (n := length y) in *.
+    destruct (Nat.eqb_spec n 0) as [E0|E0].
+    { destruct y; [|discriminate]. cbn [val]. now rewrite Z.mul_0_r. }
+    destruct (Nat.eqb_spec n 1) as [E1|E1].
+    { destruct y as [|y0 [|? ?]]; try discriminate. cbn [hd].
+      apply words_ok_cons in Hy as [Hy0 _]. rewrite nat_mulAddWW_spec by (assumption || (pose proof B_pos; lia)).
+      rewrite val_single. f_equal. lia. }
+    destruct (Z.ltb_spec (Z.of_nat n) thr) as [Hb|Hb].
+    { destruct (basicMul_spec (mk junk (m + n)) x y Hx Hy) as (R & E & L & O & V).
+      fold m n in E, L. unfold mk in E. rewrite skipn_all2 in E by (rewrite repeat_length; lia).
+      rewrite app_nil_r in E. unfold mk. rewrite E. now apply norm_eq_of_Z. }
+    pose proof (karatsubaLen_bounds n thr Hthr ltac:(lia)) as Hk.
+    set (k := karatsubaLen n thr) in *.
+    set (x0 := firstn k x). set (y0 := firstn k y).
+    assert (Lx0 : length x0 = k) by (unfold x0; len).
+    assert (Ly0 : length y0 = k) by (unfold y0; len).
+    assert (Ox0 : words_ok x0 = true) by (now apply words_ok_firstn).
+    assert (Oy0 : words_ok y0 = true) by (now apply words_ok_firstn).
+    destruct (karatsuba_spec k thr (mk junk (Nat.max (6 * k) (m + n))) x0 y0 ltac:(lia) Ox0 Oy0)
+      as (R & S & E & LR & LS & OR & VR).
+    { unfold mk. rewrite repeat_length, Ly0. lia. }
+    rewrite Ly0 in LR, LS. rewrite E. rewrite (firstn_app_exact R S (2 * k)) by lia.
+    set (z := R ++ repeat 0 (m + n - 2 * k)).
+    assert (Lz : length z = (m + n)%nat) by (unfold z; len).
+    assert (Oz : words_ok z = true) by (unfold z; apply words_ok_app; split; [assumption | apply words_ok_repeat0]).
+    assert (Vz : val z = val x0 * val y0) by (unfold z; rewrite val_app', val_repeat0; lia).
+    destruct ((k <? n)%nat || negb (m =? n)%nat) eqn:Ebr.
+    - assert (Hbr : (k < n \/ m <> n)%nat).
+      { apply orb_true_iff in Ebr as [Hb1|Hb1]; [left; now apply Nat.ltb_lt in Hb1|].
+        right. apply negb_true_iff in Hb1. now apply Nat.eqb_neq in Hb1. }
+      set (y1 := skipn k y).
+      assert (Oy1 : words_ok y1 = true) by (now apply words_ok_skipn).
+      assert (Ly1 : (length y1 + k = n)%nat) by (unfold y1; len).
+      assert (Vy : val y = val y0 + Bp k * val y1) by (apply val_split; lia).
+      pose proof (val_bounds' y0 Oy0) as By0. rewrite Ly0 in By0.
+      pose proof (val_bounds' x0 Ox0) as Bx0. rewrite Lx0 in Bx0.
+      pose proof (val_bounds' y1 Oy1) as By1.
+      pose proof (val_bounds' y Hy) as By. fold n in By.
+      pose proof (val_bounds' x Hx) as Bx. fold m in Bx.
+      assert (Ox0n : words_ok (norm x0) = true) by (now apply words_ok_norm).
+      assert (Lx0n : (length (norm x0) <= k)%nat).
+      { pose proof (zlen_norm_le x0). unfold zlen in *. lia. }
+      rewrite (IH (norm x0) y1) by (assumption || lia). rewrite val_norm.
+      set (t := of_Z (val x0 * val y1)).
+      assert (Vt : val t = val x0 * val y1) by (unfold t; apply val_of_Z; apply Z.mul_nonneg_nonneg; lia).
+      assert (Lt : (length t <= k + length y1)%nat).
+      { unfold t. apply length_of_Z_le. rewrite Bp_add. apply mul_lt_bounds; lia. }
+      assert (Ot : words_ok t = true) by apply words_ok_of_Z.
+      pose proof (val_firstn_le k x Hx) as Hx0le. fold x0 in Hx0le.
+      pose proof (Bp_pos k).
+      assert (Hxy : val x * val y < Bp (m + n)) by (rewrite Bp_add; apply mul_lt_bounds; lia).
+      destruct (decAddAt_spec z t k Oz Ot ltac:(lia)) as (Lz1 & Oz1 & _).
+      assert (Vz1 : val (decAddAt z t k) = val z + Bp k * val t).
+      { apply decAddAt_exact; try assumption; try lia. rewrite Lz, Vz, Vt.
+        assert (val x0 * val y0 + Bp k * (val x0 * val y1) = val x0 * val y) by (rewrite Vy; ring).
+        assert (val x0 * val y <= val x * val y) by (apply Z.mul_le_mono_nonneg_r; lia). lia. }
+      destruct (mul_blocks_spec (mul_f f thr junk) f k x (norm y0) y1 y m n) with
+        (fuel := m) (z := decAddAt z t k) (i := k) as (Lr & Or & Vr); try assumption; try lia.
+      + intros a b Ha Hb' Hlen. apply IH; assumption.
+      + reflexivity.
+      + now apply words_ok_norm.
+      + pose proof (zlen_norm_le y0). unfold zlen in *. lia.
+      + now rewrite val_norm.
+      + now rewrite val_norm.
+      + rewrite Vz1, Vz, Vt, Vy. fold x0. ring.
+      + now apply norm_eq_of_Z.
+    - apply orb_false_iff in Ebr as [Hb1 Hb2]. apply Nat.ltb_ge in Hb1.
+      apply negb_false_iff in Hb2. apply Nat.eqb_eq in Hb2.
+      apply norm_eq_of_Z; [assumption|]. rewrite Vz. unfold x0, y0.
+      rewrite !firstn_all2 by lia. reflexivity. }
+  cbn [mul_f].
+  destruct (Nat.ltb_spec (length x) (length y)).
+  - rewrite (Z.mul_comm (val x)). apply Core; (assumption || lia).
+  - apply Core; (assumption || lia).
+Qed.
+
+Theorem mul_spec thr junk x y : 1 <= thr -> words_ok x = true -> words_ok y = true ->
+  mul thr junk x y = dec_mul x y.
+Proof. intros. unfold mul, dec_mul. apply mul_f_spec; (assumption || lia). Qed.
